@@ -120,7 +120,10 @@ def maps_(ctx, m, rollup):
 VALID = ["rss", "vms", "shared", "text", "lib", "data", "dirty", "uss", "pss", "swap"]
 
 
-@harness("C13.percent", quick=[dict(kind="valid", L=0), dict(kind="other", L=3)], thorough=[dict(kind="valid", L=0)] + [dict(kind="other", L=L) for L in (0, 1, 3, 4, 6)])
+BAD_NAMES = ["count", "index", "_fields", "_asdict", "_replace", "__len__", "__doc__", "RSS", "rss ", "", "uss,pss"]
+
+
+@harness("C13.percent", quick=[dict(kind="valid", L=0), dict(kind="other", L=3), dict(kind="witness", L=0)], thorough=[dict(kind="valid", L=0), dict(kind="witness", L=0)] + [dict(kind="other", L=L) for L in (0, 1, 3, 4, 6)])
 def percent(ctx, kind, L):
     k = simk.Kernel(ctx)
     simk.system_files(k)
@@ -132,6 +135,8 @@ def percent(ctx, kind, L):
     k.files["/proc/meminfo"] = f"MemTotal: {TOTAL_KB} kB\nMemFree: 1 kB\nMemAvailable: 1 kB\nBuffers: 0 kB\nCached: 0 kB\nShmem: 0 kB\nActive: 0 kB\nInactive: 0 kB\n"
     if kind == "valid":
         memtype = ctx.choice("memtype", VALID)
+    elif kind == "witness":      # concrete names that are not fields but ARE attributes of the named tuples (count, index, _fields ...)
+        memtype = ctx.choice("bad_name", BAD_NAMES)
     else:
         memtype = seq.fresh(ctx, "mt", L, "str", lo=32, hi=126)
         for v in VALID:
@@ -148,7 +153,7 @@ def percent(ctx, kind, L):
             r, exc = p.memory_percent(memtype), None
         except ValueError as e:
             r, exc = None, e
-    if kind == "other":
+    if kind in ("other", "witness"):
         ctx.prove(exc is not None and k.naccess_total == log0, "memory_percent-invalid-ValueError")
         return
     ctx.observe("memory_percent", r)
